@@ -479,6 +479,9 @@ def rule_det(ctx):
 
 def run(ctx):
     from ..report import SubCtx
+    from . import c12 as c12c
+    subc = SubCtx(ctx, 'C10.beats', 'rt and nrt agree on the current beat only if it is read through the map: nobody but the rt loop reads the cached _beats (nrt never writes it), as decided for C12')
+    c12c.rule_cache(subc)
     from . import c07
     sub_c07 = SubCtx(ctx, 'C10.score', 'the nrt run is observed through the score: every bundle is one entry, ordered by time and send order, as decided for C07')
     c07.rule_score(sub_c07)
